@@ -32,6 +32,7 @@ const (
 	stCutMD5   = "cutmd5"         // cut now, and close the follower's next checksum exchange (AOFMD5) in mid-air
 	stPubStorm = "pubstorm"       // burst of leader writes (Cmds) while a second leader connection sends Ms PUBLISH commands concurrently
 	stRefCheck = "refollow+check" // oracle evaluation whose forced reconnect is FOLLOW no one + FOLLOW (marker first, then the re-FOLLOW)
+	stSleep    = "sleep"          // do nothing for Ms milliseconds (probes only)
 	stAwait    = "await"          // wait until the follower's pending (re)connect has sent its AOF request
 	stSlow     = "slow"           // from now on replication streams are delayed by Ms and paced (Chunk bytes per GapMs); Ms=0 lifts it
 )
